@@ -6,6 +6,7 @@ import SltVerif.Runner
 import SltVerif.Unparse
 import SltVerif.Include
 import SltVerif.Update
+import SltVerif.Subst
 import Driver.Codec
 import Driver.Db
 namespace Drv
@@ -86,6 +87,44 @@ def readScript : Rd ScriptIn := do
 def hasSubstOn (rs : List Rec) : Bool :=
   rs.any (fun r => match r with | .control (.substitution true) => true | _ => false)
 
+/-- marks the point where the real runner panics inside the `subst` crate (text ending in `$`) -/
+def panicSentinel : Str := [Char.ofNat 0, 'P', 'A', 'N', 'I', 'C']
+
+def isPanicEv : Ev → Bool
+  | .run _ sql => sql == panicSentinel
+  | _ => false
+
+/-- events before the panic, if there was one -/
+def cutAtPanic (t : List Ev) : Option (List Ev) :=
+  if t.any isPanicEv then some (t.takeWhile (fun e => !isPanicEv e)) else none
+
+def substErrText : SubstErr → Str
+  | .invalidEscape => kw "subst:invalidEscape"
+  | .missingName => kw "subst:missingName"
+  | .unexpectedChar => kw "subst:unexpectedChar"
+  | .missingBrace => kw "subst:missingBrace"
+  | .noSuchVar n => kw "subst:noSuchVar:" ++ strOfBytes n
+  | .panic => kw "subst:PANIC"
+
+def insertSorted (kv : Bytes × Bytes) : List (Bytes × Bytes) → List (Bytes × Bytes)
+  | [] => [kv]
+  | (k, v) :: rest =>
+    if kv.1 = k then (kv.1, kv.2) :: rest
+    else if decide (kv.1 < k) then kv :: (k, v) :: rest
+    else (k, v) :: insertSorted kv rest
+
+/-- the substitution function of a runner with the given locals / environment; the test
+    directory and the clock are placeholders (the harness canonicalises the real values) -/
+def substFn (locals env : List (Str × Str)) (full : Bool) (s : Str) : Except Str Str :=
+  let v : VarEnv :=
+    { testDir := utf8 (kw "<TEST_DIR>"), now := utf8 (kw "<NOW>")
+      locals := locals.foldl (fun acc kv => insertSorted (utf8 kv.1, utf8 kv.2) acc) []
+      env := env.map (fun kv => (utf8 kv.1, utf8 kv.2)) }
+  match substitute v full (utf8 s) with
+  | .ok b => .ok (strOfBytes b)
+  | .error .panic => .ok panicSentinel     -- the runner panics: see `cutAtPanic`
+  | .error e => .error (substErrText e)
+
 /-- run the model with a given default for regex-table misses -/
 def runScriptWith (c : ScriptIn) (dflt : Bool) : String :=
   let pcfg : PCfg :=
@@ -93,17 +132,19 @@ def runScriptWith (c : ScriptIn) (dflt : Bool) : String :=
   match parse pcfg c.text with
   | .error e => s!"parseerr {encPFail e}"
   | .ok recs =>
-    if hasSubstOn recs then "unsupported" else
-    let E := dbEnv c.db (fun _ s => .ok s) (fun re t => (lookupPair c.rmatches re t).getD dflt)
+    let E := dbEnv c.db (substFn c.locals c.env) (fun re t => (lookupPair c.rmatches re t).getD dflt)
     let cfg : RCfg := { labels := c.labels, strictCols := c.strictCols }
     let w0 : World DbState := { db := {}, threshold := c.threshold }
     let r := runMulti E cfg w0 recs
     let w := shutdownAll r.1
-    let res := match r.2 with
-      | .ok => "ok"
-      | .failed l k d => s!"failed {l} {failKindStr k} {hx d}"
-      | .crashed => "crashed"
-    let evs := canonTrace w.trace
+    let res := match cutAtPanic r.1.trace, r.2 with
+      | some _, _ => "crashed"
+      | none, .ok => "ok"
+      | none, .failed l k d => s!"failed {l} {failKindStr k} {hx d}"
+      | none, .crashed => "crashed"
+    let evs := match cutAtPanic r.1.trace with
+      | some pre => canonTrace (pre ++ w.trace.filter isShutdown)
+      | none => canonTrace w.trace
     evs.foldl (fun acc e => acc ++ " " ++ encEv e) s!"{res} {evs.length}"
 
 def opScript : Rd String := do
